@@ -314,7 +314,7 @@ def run(tier, seed):
         c05_schemes.add_obligations(chk, funcs)
     except ImportError:
         chk.notes.append("O8 (scheme constructor key map) not built yet")
-    chk.vacuity = dict(rules=n_rules, queries=len(queries), families=len(funcs))
+    chk.vacuity.update(dict(rules=n_rules, queries=len(queries), families=len(funcs)))
     if n_rules < 1:
         chk.error("no table entries found")
     chk.samples.append(dict(rule="log_quadrature_rule key=(1,1)", obligation="sum_i w_i x_i log x_i == -1/4 +- 1e-30",
